@@ -1721,7 +1721,12 @@ func (k *c19) aliasingCopy(f *ssa.Function, cl *ssa.Call) {
 					return
 				}
 				l, r := c.Path(bo.X, nil), c.Path(bo.Y, nil)
-				if (strings.HasPrefix(l, "strconv.Atoi(") && strings.HasPrefix(r, "len(")) || (strings.HasPrefix(r, "strconv.Atoi(") && strings.HasPrefix(l, "len(")) {
+				// (the index compared is the destination's own: the number parsed from the last reference token — not a
+				// value that a walk over the tokens before it may have overwritten)
+				isDest := func(p string) bool {
+					return strings.HasPrefix(p, "strconv.Atoi(") && strings.HasSuffix(p, " - 1)])#0") && !strings.Contains(p, "phi(")
+				}
+				if (isDest(l) && strings.Contains(r, "len(")) || (isDest(r) && strings.Contains(l, "len(")) {
 					bounded = true
 				}
 			})
